@@ -1,10 +1,10 @@
 def instances(tier):
     q = tier == "quick"
-    N = 3 if q else 5
+    N = 3 if q else 7
     out = []
     for l in range(0, N + 1):
         u = l + 3
-        if l <= (2 if q else 5): out.append(f"inst!(p_str_{l}, {u}, check_from_str, {l});")
+        if l <= (2 if q else 7): out.append(f"inst!(p_str_{l}, {u}, check_from_str, {l});")
         out.append(f"inst!(p_bytes_{l}, {u}, check_from_bytes, {l});")
         if (l == 1 if q else l <= 3): out.append(f"inst!(p_size_{l}, {u}, check_size_deref, {l});")
         if (l == 1 if q else l <= 3): out.append(f"inst!(p_clone_{l}, {u}, check_clone, {l});")
